@@ -420,6 +420,11 @@ class Connection(ExportImport):
         # confused.
         self._abort()
 
+        if self._import:
+            # An import whose savepoint failed is still pending: forget it,
+            # as tpc_abort does.
+            self._import = None
+
         if self._savepoint_storage is not None:
             self._abort_savepoint()
 
